@@ -196,6 +196,25 @@ namespace
         }
     };
 
+    // gate3: three inputs; besides the per-input validity policy the SIGNATURE may declare one input passive
+    // (InputActivity::Passive) - wiring-time passive(...) markers on the other inputs come on top of that
+    template <InputValidity VA, InputValidity VB, InputValidity VC, InputActivity AA, InputActivity AB, InputActivity AC>
+    struct HGate3
+    {
+        static constexpr auto name = "h_gate3";
+        static void eval(NodeView node, DateTime now, Scalar<"lbl", Int> lbl, In<"a", TS<Int>, VA, AA> a,
+                         In<"b", TS<Int>, VB, AB> b, In<"c", TS<Int>, VC, AC> c, Out<TS<Int>> out)
+        {
+            logf("E " + lbl_of(node) + " " + std::to_string(us(now)) + " a=" + in_desc(a) + " b=" + in_desc(b) +
+                 " c=" + in_desc(c));
+            Int v = 0;
+            if (a.valid()) { v += a.value(); }
+            if (b.valid()) { v += b.value(); }
+            if (c.valid()) { v += c.value(); }
+            out.set(v);
+        }
+    };
+
     // ngate: the same node as `gate`, built as a NATIVE node (NodeBuilder::native): its readiness is decided by
     // the generic gate of node.cpp (`ready_to_evaluate` over NodeTypeMetaData::valid_inputs), not by the
     // static front-end's own wrapper.  valid_inputs lists the slots marked V (explicitly EMPTY for "UU").
@@ -665,6 +684,27 @@ namespace
             else if (ua && !ub) { env.ports.emplace(key, wire<HGate<U, V>>(w, lbl, arg(0), arg(1))); }
             else { env.ports.emplace(key, wire<HGate<U, U>>(w, lbl, arg(0), arg(1))); }
         }
+        else if (n.kind == "gate3")
+        {
+            // flags: 3 validity chars (VVV | UUU | VUV) + 3 activity chars (AAA | PAA | APA | AAP)
+            const std::string &f = n.args.at(3);
+            constexpr auto V = InputValidity::Valid;
+            constexpr auto U = InputValidity::Unchecked;
+            constexpr auto A = InputActivity::Active;
+            constexpr auto P = InputActivity::Passive;
+            const std::string val = f.substr(0, 3), act = f.substr(3, 3);
+            auto with_act = [&]<InputValidity VA, InputValidity VB, InputValidity VC>() {
+                if (act == "AAA") { env.ports.emplace(key, wire<HGate3<VA, VB, VC, A, A, A>>(w, lbl, arg(0), arg(1), arg(2))); }
+                else if (act == "PAA") { env.ports.emplace(key, wire<HGate3<VA, VB, VC, P, A, A>>(w, lbl, arg(0), arg(1), arg(2))); }
+                else if (act == "APA") { env.ports.emplace(key, wire<HGate3<VA, VB, VC, A, P, A>>(w, lbl, arg(0), arg(1), arg(2))); }
+                else if (act == "AAP") { env.ports.emplace(key, wire<HGate3<VA, VB, VC, A, A, P>>(w, lbl, arg(0), arg(1), arg(2))); }
+                else { throw std::invalid_argument("gate3 activity flags"); }
+            };
+            if (val == "VVV") { with_act.template operator()<V, V, V>(); }
+            else if (val == "UUU") { with_act.template operator()<U, U, U>(); }
+            else if (val == "VUV") { with_act.template operator()<V, U, V>(); }
+            else { throw std::invalid_argument("gate3 validity flags"); }
+        }
         else if (n.kind == "ngate")
         {
             const std::string &f = n.args.at(2);
@@ -722,6 +762,7 @@ namespace
             for (auto &sn : shifted)
             {
                 if (sn.kind == "add" || sn.kind == "gate" || sn.kind == "ngate") { sn.args[0] = rename(sn.args[0]); sn.args[1] = rename(sn.args[1]); }
+                else if (sn.kind == "gate3") { for (std::size_t i = 0; i < 3; ++i) { sn.args[i] = rename(sn.args[i]); } }
                 else if (sn.kind == "acc" || sn.kind == "pass" || sn.kind == "sink" || sn.kind == "probe") { sn.args[0] = rename(sn.args[0]); }
                 else if ((sn.kind == "script" && sn.args.size() >= 2) || sn.kind == "thrower") { sn.args[1] = rename(sn.args[1]); }
             }
